@@ -12,10 +12,12 @@ import (
 	"encoding/json"
 	"flag"
 	"fmt"
+	"google.golang.org/protobuf/types/known/timestamppb"
 	"io"
 	"math/rand"
 	"os"
 	"sync"
+	"time"
 
 	"github.com/protobom/protobom/pkg/formats"
 	"github.com/protobom/protobom/pkg/native"
@@ -67,8 +69,19 @@ func mkDoc(i int) *sbom.Document {
 	d.Metadata.Name = fmt.Sprintf("doc %d", i)
 	root := &sbom.Node{Id: fmt.Sprintf("root%d", i), Name: "root", Version: "1"}
 	d.NodeList.AddRootNode(root)
-	for k := 0; k < 3+i%3; k++ {
-		n := &sbom.Node{Id: fmt.Sprintf("n%d-%d", i, k), Name: fmt.Sprintf("pkg%d", k), Version: "1.0", Hashes: map[int32]string{3: "aa"}}
+	for k := 0; k < 12+i%3; k++ {
+		// every kind of attribute, so that the helpers behind them (actor strings, licence expressions, purls,
+		// hash tables, dates) all run inside the concurrent calls
+		n := &sbom.Node{Id: fmt.Sprintf("n%d-%d", i, k), Name: fmt.Sprintf("pkg%d", k), Version: "1.0", Hashes: map[int32]string{3: "aa", 2: fmt.Sprintf("bb%d", i)},
+			Type:     sbom.Node_PACKAGE,
+			Licenses: []string{"MIT", "Apache-2.0"}, LicenseConcluded: "MIT", Copyright: fmt.Sprintf("(c) doc %d", i),
+			Suppliers:          []*sbom.Person{{Name: fmt.Sprintf("Supplier %d-%d", i, k), IsOrg: true, Email: fmt.Sprintf("supplier-%d-%d@example.com", i, k), Url: "https://s.example"}},
+			Originators:        []*sbom.Person{{Name: fmt.Sprintf("Originator %d-%d", i, k), Email: fmt.Sprintf("originator-%d-%d@example.org", i, k), Phone: "+1 555"}},
+			Identifiers:        map[int32]string{int32(sbom.SoftwareIdentifierType_PURL): fmt.Sprintf("pkg:npm/pkg%d@1.0.%d", k, i), int32(sbom.SoftwareIdentifierType_CPE23): "cpe:2.3:a:x:y:1:*:*:*:*:*:*:*"},
+			ExternalReferences: []*sbom.ExternalReference{{Url: fmt.Sprintf("https://e.example/%d/%d", i, k), Type: sbom.ExternalReference_VCS, Comment: "c", Hashes: map[int32]string{3: "cc"}}},
+			PrimaryPurpose:     []sbom.Purpose{sbom.Purpose_LIBRARY},
+			ReleaseDate:        timestamppb.New(time.Unix(1700000000+int64(i), 0)),
+		}
 		d.NodeList.AddNode(n)
 		d.NodeList.Edges = append(d.NodeList.Edges, &sbom.Edge{Type: sbom.Edge_contains, From: root.Id, To: []string{n.Id}})
 	}
